@@ -471,7 +471,7 @@ PROPS["C18"] = {
         "technique": PBT + "; stateful history generation with a resource-census invariant (/proc/self/fd, /proc/self/maps, LeakSanitizer, allocator statistics)",
     },
     "src": "props/C18.cpp", "extra_src": ["harness/shims/shims.c"], "shims": ["sorter.mkshim"],
-    "env": {"ASAN_OPTIONS": "detect_leaks=1:leak_check_at_exit=0:exitcode=66:abort_on_error=0:allocator_may_return_null=1:handle_abort=0:detect_stack_use_after_return=0"},
+    "env": {"ASAN_OPTIONS": "detect_leaks=1:leak_check_at_exit=0:exitcode=66:abort_on_error=0:allocator_may_return_null=1:handle_abort=0:detect_stack_use_after_return=0:quarantine_size_mb=32"},
     "level": "exploration",
     "rule": ("case = 1-4 scenarios with numeric parameters (sizes, pool, destroy points, failure injection). Non-trivial: a sorter "
              "with >= 2 chunks, or an iterator destroyed before exhaustion, or a call that reported failure. Distinct by FNV-1a."),
